@@ -155,7 +155,7 @@ func cmdCheck(args []string) int {
 		if r.Truncated {
 			inconclusive = append(inconclusive, j.ID+": path budget exhausted")
 		}
-		if r.Paths == 0 {
+		if r.Paths == 0 && !s.stoppedEarly {
 			inconclusive = append(inconclusive, j.ID+": no path executed")
 		}
 		for i := range r.Failures {
@@ -172,7 +172,7 @@ func cmdCheck(args []string) int {
 			all = append(all, tapeRef{w, j, nil})
 		}
 		// vacuity: every job must reach its end label at least once unless it reported failures
-		if len(r.Reached) == 0 && len(r.Failures) == 0 && len(r.KnownHits) == 0 {
+		if len(r.Reached) == 0 && len(r.Failures) == 0 && len(r.KnownHits) == 0 && !s.stoppedEarly {
 			inconclusive = append(inconclusive, j.ID+": vacuous (no reach label was hit)")
 		}
 	}
@@ -252,6 +252,21 @@ func cmdCheck(args []string) int {
 		inconclusive = append(inconclusive, fmt.Sprintf("%d counterexample(s) found under the uninterpreted hash summary do not fail with the real hash values of their inputs (a real counterexample may need a specific hash collision); not decided", spurious))
 	}
 
+	// tapes of the repetition harness are replayed natively with a very large repetition count:
+	// unbounded recursion then exhausts the stack (the engine sees it as growth of the call depth)
+	for i, tr := range all {
+		if tr.tp.Harness == "H_repeat" && tr.f != nil {
+			cp := *tr.tp
+			cp.Params = map[string]int{}
+			for k, v := range tr.tp.Params {
+				cp.Params[k] = v
+			}
+			cp.Params["k"] = 30000000
+			cp.Expect.Fail = "unwind (recursion grows with the repetition count)"
+			all[i].tp = &cp
+		}
+	}
+
 	// ---- native replay ----
 	var replayLog bytes.Buffer
 	groups := map[string][]int{}
@@ -309,6 +324,49 @@ func cmdCheck(args []string) int {
 			}
 			for n, i := range idxs {
 				dualOutcomes[i] = outs[n]
+			}
+		}
+	}
+
+	// Out-of-bounds accesses by the assembly are not observable in ordinary heap memory: replay
+	// those tapes again with the buffers ending (layout 1) / starting (layout 2) at an
+	// inaccessible page and keep the first layout that shows the misbehaviour natively.
+	if replayOK {
+		for _, layout := range []int{1, 2} {
+			var idxs []int
+			var tps []*Tape
+			for i, tr := range all {
+				if tr.f == nil || !strings.HasPrefix(tr.tp.Expect.Fail, "asm-") {
+					continue
+				}
+				if _, has := tr.tp.Params["layout"]; !has {
+					continue
+				}
+				if ok, _ := judgeTape(tr.tp, outcomes[i]); ok {
+					continue
+				}
+				cp := *tr.tp
+				cp.Params = map[string]int{}
+				for k, v := range tr.tp.Params {
+					cp.Params[k] = v
+				}
+				cp.Params["layout"] = layout
+				tps = append(tps, &cp)
+				idxs = append(idxs, i)
+			}
+			if len(tps) == 0 {
+				break
+			}
+			outs, err := replayTapes(tps, tps[0].Pkg, tps[0].Tags, &replayLog)
+			if err != nil {
+				fmt.Println("REPLAY-ERROR:", err)
+				break
+			}
+			for n, i := range idxs {
+				if ok, _ := judgeTape(tps[n], outs[n]); ok {
+					outcomes[i] = outs[n]
+					all[i].tp = tps[n]
+				}
 			}
 		}
 	}
@@ -376,6 +434,9 @@ func cmdCheck(args []string) int {
 	}
 	if !replayOK {
 		inconclusive = append(inconclusive, "native replay could not be built/run")
+	}
+	if s.stoppedEarly {
+		fmt.Printf("NOTE: exploration stopped early after %d counterexamples\n", s.failures)
 	}
 	for id, n := range otherProp {
 		fmt.Printf("NOTE: %d failure(s) of assertion %q were found; it belongs to another property's check and is reported there\n", n, id)
